@@ -10,10 +10,10 @@ from ._meta import M, COMMON_NOTE
 META = dict(M["C18"])
 META.update(
     level="other",
-    technique="contracts on the real JSONEncoder.default (scalar cases), depth_m and depth_ft discharged by z3; branch-consistency lemma over the two depth contracts with real arithmetic treated as mathematical; unit-table lemma (the real unit test of LASFile.read on the real DEPTH_UNITS table with a symbolic unit string); per-curve JSON list lemma (the real comprehension of JSONEncoder.default on an opaque array); "
+    technique="contracts on the real JSONEncoder.default (scalar cases), depth_m and depth_ft discharged by z3; branch-consistency lemma over the two depth contracts with real arithmetic treated as mathematical; unit-table lemma (the real unit test of LASFile.read on the real DEPTH_UNITS table with a symbolic unit string); per-curve JSON list lemma (the real comprehension of JSONEncoder.default on an opaque array); contract on the header-row block of LASFile.to_csv (ghost row counters fed by a hook on writer.writerow); "
               "strict JSON / csv / openpyxl / pandas round trips as bounded stand-in",
     level_text="Proved: JSONEncoder.default returns int(obj) for numpy integers, float(obj) for numpy floats and None otherwise (non-LASFile arguments); depth_m and depth_ft select the same unit branch (M, then F, then .1IN, else LASUnknownUnitError) "
-               "and in each branch depth_m = depth_ft x 0.3048 (lemma, with (x / c) x c = x as the only arithmetic fact); a unit text is recognised as FT, M or .1IN exactly when it equals one of that unit's spellings in defaults.DEPTH_UNITS up to letter case (every string, incl. non-ASCII); the JSON list of a curve has one entry per sample, null exactly for a float NaN and the sample itself otherwise (T-enc: iterating an array yields its len() elements). The rest of the LASFile branch of the encoder (section dict views, NaN -> null), to_csv, to_excel, df and unit recognition are bounded.",
+               "and in each branch depth_m = depth_ft x 0.3048 (lemma, with (x / c) x c = x as the only arithmetic fact); a unit text is recognised as FT, M or .1IN exactly when it equals one of that unit's spellings in defaults.DEPTH_UNITS up to letter case (every string, incl. non-ASCII); the JSON list of a curve has one entry per sample, null exactly for a float NaN and the sample itself otherwise (T-enc: iterating an array yields its len() elements); to_csv writes the mnemonic row exactly when it is asked for, the unit row exactly when it is asked for and units_loc == 'line', mnemonics first, and no other header row (five option-type cases; csv.writer itself is opaque). The rest of the LASFile branch of the encoder (section dict views, NaN -> null), the text of the csv rows, to_excel and df are bounded.",
     level_note=COMMON_NOTE + "Machine arithmetic treated as mathematical: (x / c) * c = x for the metre branch. _index_unit_contains is an assumed one-line contract.",
     assumptions=["(x / 0.3048) * 0.3048 = x (real arithmetic; floating-point rounding ignored)"])
 
